@@ -77,11 +77,35 @@ inductive Err
   | alloc (site : String) (n : Nat)  -- a single `make` of n bytes above the budget
 deriving Repr, DecidableEq, BEq
 
+/-- One flag per place where the pinned decoder panics or sizes an allocation from an
+    unchecked input field.  `false` = the pinned code's behaviour (the defect is present),
+    `true` = the site rejects the input with an error instead.  `Guards.pinned` is the tree as
+    it stands; `Guards.all` is the fully hardened decoder the safety theorem is about. -/
+structure Guards where
+  v1StrLen : Bool := false     -- v1 string length <= 0        (Truncate(-1))
+  strNeg : Bool := false       -- v2/v3 string length < 0      (negative slice bound)
+  strHuge : Bool := false      -- v2/v3 string length > remaining input (make of that size)
+  v1ArrIndex : Bool := false   -- v1 collected array stores into a zero-length slice
+  arrNeg : Bool := false       -- collected array with negative count (negative make)
+  arrHuge : Bool := false      -- collected array storage allocated up front from the count
+  dimsHuge : Bool := false     -- tensor dims > remaining input / 8
+  alignType : Bool := false    -- general.alignment not uint32 (failed type assertion)
+  alignZero : Bool := false    -- general.alignment = 0 (integer divide by zero)
+  negSeek : Bool := false      -- tensor size >= 2^63 (backward seek: end offset before start)
+deriving Repr, DecidableEq
+
+def Guards.pinned : Guards := {}
+def Guards.all : Guards := ⟨true, true, true, true, true, true, true, true, true, true⟩
+/-- the variant /repo's working tree implements (checked on every run by the L1 correspondence):
+    all ten sites were repaired by `fix:` commits (KNOWN_FINDINGS.jsonl, C10 F11a–F11j) -/
+def Guards.tree : Guards := Guards.all
+
 structure Cfg where
   be : Bool := false
   version : Nat := 3
   maxArray : Int := 1024
   budget : Option Nat := none
+  g : Guards := Guards.tree
 deriving Repr
 
 structure Rd where
@@ -123,7 +147,8 @@ def checkAlloc (c : Cfg) (site : String) (n : Nat) : Except Err Unit :=
 def readStrV1 (c : Cfg) (r : Rd) : Except Err (Bytes × Rd) := do
   let (n, r) ← readUint c.be 8 r
   let len := toI64 n
-  if len ≤ 0 then .error (.panic "v1-string-truncate")     -- Truncate(-1)
+  if len ≤ 0 then                                          -- Truncate(-1)
+    if c.g.v1StrLen then .error (.invalid "v1 string length") else .error (.panic "v1-string-truncate")
   else do
     let (bs, r) ← readN len.toNat r
     pure (bs.take (bs.length - 1), r)
@@ -132,10 +157,13 @@ def readStrV1 (c : Cfg) (r : Rd) : Except Err (Bytes × Rd) := do
 def readStrV23 (c : Cfg) (r : Rd) : Except Err (Bytes × Rd) := do
   let (n, r) ← readUint c.be 8 r
   let len := toI64 n
-  if len > 16384 then do
-    checkAlloc c "string" len.toNat
-    readN len.toNat r
-  else if len < 0 then .error (.panic "string-slice-negative")
+  if len > 16384 then
+    if c.g.strHuge ∧ len.toNat > r.rest.length then .error .eof
+    else do
+      checkAlloc c "string" len.toNat
+      readN len.toNat r
+  else if len < 0 then
+    if c.g.strNeg then .error (.invalid "string length") else .error (.panic "string-slice-negative")
   else readN len.toNat r
 
 def readStr (c : Cfg) (r : Rd) : Except Err (Bytes × Rd) :=
@@ -186,7 +214,7 @@ def readElems (c : Cfg) (t : Nat) (collect : Bool) : Nat → Rd → Except Err (
   | 0, r => .ok ([], r)
   | n+1, r => do
     let (e, r) ← readElem c t collect r
-    if collect ∧ c.version = 1 then .error (.panic "v1-array-index")
+    if collect ∧ c.version = 1 ∧ ¬ c.g.v1ArrIndex then .error (.panic "v1-array-index")
     else do
       let (es, r) ← readElems c t collect n r
       pure (e :: es, r)
@@ -196,9 +224,11 @@ def readArr (c : Cfg) (r : Rd) : Except Err (Val × Rd) := do
   let (n, r) ← readUint c.be (if c.version = 1 then 4 else 8) r
   let size := toI64 n
   let collect : Bool := c.maxArray < 0 || size ≤ c.maxArray
-  if collect ∧ size < 0 then .error (.panic "array-make-negative")
+  if collect ∧ size < 0 then
+    if c.g.arrNeg then .error (.invalid "array size") else .error (.panic "array-make-negative")
   else do
-    if collect then checkAlloc c "array" (16 * size.toNat)
+    -- pinned: `make([]any, n)` up front; repaired: elements are appended as they are read
+    if collect ∧ ¬ c.g.arrHuge then checkAlloc c "array" (16 * size.toNat)
     let (es, r) ← readElems c t collect n r
     pure (.arr t size (if collect then some es else none), r)
 
@@ -235,6 +265,8 @@ def readShape (c : Cfg) : Nat → Rd → Except Err (List Nat × Rd)
 def readTensor (c : Cfg) (r : Rd) : Except Err (TInfo × Rd) := do
   let (name, r) ← readStr c r
   let (dims, r) ← readUint c.be 4 r
+  if c.g.dimsHuge ∧ 8 * dims > r.rest.length then .error .eof
+  else do
   checkAlloc c "shape" (8 * dims)
   let (shape, r) ← readShape c dims r
   let (kind, r) ← readUint c.be 4 r
@@ -248,27 +280,32 @@ def readTensors (c : Cfg) : Nat → Rd → Except Err (List TInfo × Rd)
     let (ts, r) ← readTensors c n r
     pure (t :: ts, r)
 
-def keyAlignment : Bytes := "general.alignment".toUTF8.toList
-def keyParamCount : Bytes := "general.parameter_count".toUTF8.toList
+-- "general.alignment" / "general.parameter_count" as explicit bytes (kernel-reducible)
+def keyAlignment : Bytes :=
+  [103, 101, 110, 101, 114, 97, 108, 46, 97, 108, 105, 103, 110, 109, 101, 110, 116]
+def keyParamCount : Bytes :=
+  [103, 101, 110, 101, 114, 97, 108, 46, 112, 97, 114, 97, 109, 101, 116, 101, 114, 95, 99, 111, 117, 110, 116]
 
 def kvLookup (kvs : List (Bytes × Val)) (k : Bytes) : Option Val :=
   (kvs.find? (fun p => p.1 = k)).map (·.2)
 
 /-- `kv.Uint("general.alignment", 32)` including the failed type assertion -/
-def alignmentOf (kvs : List (Bytes × Val)) : Except Err Nat :=
+def alignmentOf (g : Guards) (kvs : List (Bytes × Val)) : Except Err Nat :=
   match kvLookup kvs keyAlignment with
   | none => .ok 32
   | some (.scalar 4 v) => .ok v
-  | some _ => .error (.panic "alignment-type")
+  | some _ => if g.alignType then .error (.invalid "alignment type") else .error (.panic "alignment-type")
 
 /-- the trailing seek loop: returns the final position -/
-def seekTensors (align : Nat) : List TInfo → Nat → Except Err Nat
+def seekTensors (g : Guards) (align : Nat) : List TInfo → Nat → Except Err Nat
   | [], pos => .ok pos
   | t :: ts, pos =>
     let p := pos + padding pos align
-    let np : Int := (p : Int) + toI64 (tensorSize t.kind t.shape)
-    if np < 0 ∨ np ≥ (two63 : Int) then .error .eof
-    else seekTensors align ts np.toNat
+    let sz := toI64 (tensorSize t.kind t.shape)
+    let np : Int := (p : Int) + sz
+    if g.negSeek ∧ sz < 0 then .error (.invalid "tensor size")
+    else if np < 0 ∨ np ≥ (two63 : Int) then .error .eof
+    else seekTensors g align ts np.toNat
 
 def sumParameters (ts : List TInfo) : Nat :=
   ts.foldl (fun acc t => (acc + parameters t.shape) % two64) 0
@@ -278,11 +315,12 @@ def decodeBody (c : Cfg) (numKV numTensor : Nat) (r : Rd) : Except Err Decoded :
   let (kvs, r) ← readKVs c numKV [] r
   let (ts, r) ← readTensors c numTensor r
   let kvs := kvInsert kvs keyParamCount (.scalar 10 (sumParameters ts))
-  let align ← alignmentOf kvs
-  if align = 0 then .error (.panic "alignment-zero")
+  let align ← alignmentOf c.g kvs
+  if align = 0 then
+    if c.g.alignZero then .error (.invalid "alignment zero") else .error (.panic "alignment-zero")
   else do
     let tensorOffset := r.pos + padding r.pos align
-    let endPos ← seekTensors align ts r.pos
+    let endPos ← seekTensors c.g align ts r.pos
     pure ⟨c.version, kvs, ts, tensorOffset, endPos⟩
 
 def magicLE : Nat := 0x46554747
@@ -290,7 +328,8 @@ def magicBE : Nat := 0x47475546
 
 /-- `ggml.Decode(rs, maxArraySize)` for gguf containers.  `maxArraySize` as passed by the
     caller (0 means 1024). -/
-def decode (bs : Bytes) (maxArraySize : Int) (budget : Option Nat := none) : Except Err Decoded := do
+def decode (bs : Bytes) (maxArraySize : Int) (budget : Option Nat := none)
+    (g : Guards := Guards.tree) : Except Err Decoded := do
   let maxA := if maxArraySize = 0 then 1024 else maxArraySize
   let (magic, r) ← readUint false 4 ⟨bs, 0⟩
   if magic ≠ magicLE ∧ magic ≠ magicBE then .error (.invalid "invalid file magic")
@@ -300,7 +339,7 @@ def decode (bs : Bytes) (maxArraySize : Int) (budget : Option Nat := none) : Exc
     let w := if version = 1 then 4 else 8
     let (numTensor, r) ← readUint be w r
     let (numKV, r) ← readUint be w r
-    decodeBody ⟨be, version, maxA, budget⟩ numKV numTensor r
+    decodeBody ⟨be, version, maxA, budget, g⟩ numKV numTensor r
 
 /-! ## encoder -/
 
